@@ -104,9 +104,16 @@ def base_scenario(rng, proto=None, small=False):
     items = gen_items(rng, ids, threshold, n_items, big=not small)
     writes = gen_writes(rng, ids, threshold,
                         rng.randint(0, 3) if small else rng.randint(0, 12))
+    reentrant = None
+    real = [i for i, wr in enumerate(writes) if wr[0] != 'bad']
+    if not small and len(real) >= 2 and rng.random() < 0.12:
+        # an early outgoing listener answers one of the queued packets with
+        # a forced write of its own while that packet is being written
+        # (re-entrant use of the write lock, which the library supports)
+        reentrant = rng.choice(real)
     return {
         'proto': proto, 'threshold': threshold, 'cipher': cipher,
-        'items': items, 'writes': writes,
+        'items': items, 'writes': writes, 'reentrant': reentrant,
         'server': {'conns': [{'login': login, 'play': items}]},
         'net': {'latency_us': 200},
         'sched': {'granularity': 'io', 'max_steps': 400000},
@@ -309,6 +316,16 @@ def _execute(scenario, tape, want_world=False):
             c['log'].append(rec)
         conn.register_packet_listener(on_packet, Packet, early=True)
 
+        def on_outgoing(p):
+            c = cur()
+            if c.get('target') is p:
+                c['urgent_issued'] = True
+                conn.write_packet(serverbound.play.ChatPacket(
+                    message='urgent!'), force=True)
+        if any(sc_.get('reentrant') is not None for sc_ in sessions):
+            conn.register_packet_listener(on_outgoing, Packet, early=True,
+                                          outgoing=True)
+
         def user():
             via_handler = scenario.get('second_via') == 'handler'
             for k, c in enumerate(S):
@@ -326,7 +343,7 @@ def _execute(scenario, tape, want_world=False):
                     w.sim.after(0, lambda: w.server.release(
                         app0, sc['threshold']), 'release')
                 if not c['errs']:
-                    for wr in sc['writes']:
+                    for wi, wr in enumerate(sc['writes']):
                         if wr[0] == 'plugin':
                             pkt = serverbound.play.PluginMessagePacket(
                                 channel=wr[1], data=bytes.fromhex(wr[2]))
@@ -342,9 +359,12 @@ def _execute(scenario, tape, want_world=False):
                         else:
                             pkt = Custom(a=wr[2], b=wr[3],
                                          c=bytes.fromhex(wr[4]))
+                        if sc.get('reentrant') == wi:
+                            c['target'] = pkt
                         w.api('write', conn.write_packet, pkt)
                     n_ka = sum(1 for it in sc['items'] if it[0] == 'ka')
-                    want_frames = len(c['exp_out']) + n_ka
+                    want_frames = len(c['exp_out']) + n_ka + (
+                        1 if sc.get('reentrant') is not None else 0)
 
                     def settled():
                         app = w.server.apps[k] if len(w.server.apps) > k \
@@ -462,6 +482,9 @@ def check(scenario, w, st, res, exp_in, exp_out, ids, k=0, top=None):
         V.append(('C01/outgoing-torn-stream', app.errors[:3]))
         return
     ids_out = set(i for i, _b in exp_out)
+    urgent = (ids['sb.play.chat'], wire.string('urgent!'))
+    if scenario.get('reentrant') is not None:
+        ids_out.add(urgent[0])
     seen = [(pid, bytes(body)) for seq, state, pid, body, meta in app.frames
             if state in ('play', 'paused') and pid in ids_out and not (
                 pid == ids['sb.play.keep_alive'] and
@@ -469,6 +492,16 @@ def check(scenario, w, st, res, exp_in, exp_out, ids, k=0, top=None):
     # keep-alive answers may share an id with a written packet class only if
     # tables collide; filter them by body when they do
     ob(len(exp_out) + 1)
+    if scenario.get('reentrant') is not None:
+        # the listener's own forced packet appears exactly once; where it
+        # lands is not asserted, the order of the queued packets is
+        n_urgent = seen.count(urgent)
+        seen = [x for x in seen if x != urgent]
+        ob()
+        if n_urgent != 1:
+            V.append(('C01/reentrant-forced-write-count', n_urgent))
+            return
+        res.probes['reentrant-forced-write'] = 1
     if seen != exp_out:
         ka_id = ids['sb.play.keep_alive']
         seen2 = [(p, b) for p, b in seen if not (p == ka_id and
